@@ -84,7 +84,11 @@ class LifecycleRun:
         sensor = "absent" if rec["sensor"] is None else TEXT.get(rec["sensor"], rec["sensor"])
         self.log.append({"k": "deliver", "ev": name, "by": by, "ep": ep, "st": ST[rec["state"]], "fac": rec["facade"],
                          "spa": rec["spa"], "descr": rec["descr"], "sensor": sensor, "t": int(round(rec["t"] * 1000))})
-        d = self.susp.pop(event.name, None)
+        self._occ = getattr(self, "_occ", {})
+        self._occ[event.name] = self._occ.get(event.name, 0) + 1
+        d = self.susp.pop(f"{event.name}#{self._occ[event.name]}", None)      # "NAME#k": the k-th delivery of NAME
+        if d is None:
+            d = self.susp.pop(event.name, None)
         if d:
             self.log.append({"k": "susp"})
             await asyncio.sleep(d)
@@ -131,6 +135,15 @@ class LifecycleRun:
                     if spa_ is not None and s.conn_transport() is not None:
                         for i in range(int(arg)):
                             s.inject(frame(spa_.descriptor.identifier, spa_.client_id, b"RFERR"), delay=0.001 * i)
+                elif action == "change":
+                    # the spa changes a byte of its live section and the report never reaches the client (lost): only
+                    # the periodic refresh can repair the client's copy
+                    spa_ = s.man._spa
+                    if spa_ is not None and getattr(spa_, "log_class", None) is not None:
+                        blk = s.peer.sim.structure.status_block
+                        pos = spa_.log_class.begin + int(arg or 7)
+                        s.peer.sim.structure.set_status_block(blk[:pos] + bytes([(blk[pos] + 1) % 256]) + blk[pos + 1:])
+                        self.changed = getattr(self, "changed", 0) + 1
                 elif action == "sockfail":
                     loop.fail_endpoints = int(arg)
                     loop.on_endpoint_fail = lambda kw: self.log.append({"k": "sockfail"})
